@@ -3,6 +3,7 @@ The minimizer module provides functionality for the minimization process of
 a function.
 """
 import abc
+import inspect
 import logging
 import scipy.optimize
 
@@ -359,6 +360,10 @@ class LBFGSMinimizerImpl(
         self._iprint = iprint
 
         self._fmin_l_bfgs_b = scipy.optimize.fmin_l_bfgs_b
+        # The iprint option has been removed from fmin_l_bfgs_b in recent scipy
+        # versions. Pass it on only if it is still supported.
+        self._fmin_l_bfgs_b_accepts_iprint = (
+            'iprint' in inspect.signature(self._fmin_l_bfgs_b).parameters)
 
     def minimize(
             self,
@@ -435,7 +440,7 @@ class LBFGSMinimizerImpl(
             kwargs['pgtol'] = self._pgtol
         if 'maxls' not in kwargs:
             kwargs['maxls'] = self._maxls
-        if 'iprint' not in kwargs:
+        if ('iprint' not in kwargs) and self._fmin_l_bfgs_b_accepts_iprint:
             kwargs['iprint'] = self._iprint
 
         func_provides_grads = kwargs.pop('func_provides_grads', True)
